@@ -448,7 +448,8 @@ uninterp spec fn block_valid_spec(s: &State, block: &Block, now: Duration) -> Op
 //@ spec
 //@| ensures
 //@|     res.is_some() <==> blocks.tree.contains(*tip),
-//@|     res matches Some(p) ==> deref_seq(p.1@) =~= blocks.tree.subtree_at(blocks.tree.idx_path_to(*tip)).child_roots(),
+//@|     res matches Some(p) ==> p.0@ =~= blocks.tree.path_blocks(blocks.tree.idx_path_to(*tip))
+//@|         && deref_seq(p.1@) =~= blocks.tree.subtree_at(blocks.tree.idx_path_to(*tip)).child_roots(),
 //@end
 mod ic_btc_types {
     pub(crate) use super::BlockHash;
